@@ -455,7 +455,19 @@ retry:
 			w = "exists"
 			all := append(append([]string{}, files...), dirs...)
 			missing := m.fresh("ghost")
-			switch m.r.Intn(4) {
+			switch m.r.Intn(5) {
+			case 4:
+				// a path that runs through a regular file: it cannot be examined at all (not a directory
+				// rather than no such file), so it does not exist for either form of the command
+				if len(files) == 0 {
+					continue
+				}
+				through := m.spell(m.pick(files)) + "/" + m.pick([]string{"child", "a/b", "x.txt"})
+				if wantOK {
+					t = "! exists " + through
+				} else {
+					t, o = "exists "+through, oFail
+				}
 			case 0:
 				if len(all) == 0 {
 					continue
